@@ -6,6 +6,7 @@ import (
 	"reflect"
 	"sort"
 	"strconv"
+	"strings"
 
 	"github.com/golang/protobuf/proto"
 
@@ -119,17 +120,29 @@ func numBig(tier string) int {
 	if tier == "thorough" {
 		return 24
 	}
-	return 6
+	return 7
 }
 
 func genBig(r *RNG, j int) KeySet {
-	switch j % 6 {
+	switch j % 7 {
 	case 4: // short-node table of exactly 9 bits
 		return KeySet{"big:steer-short-9", genSteerShort(9, 30+r.Intn(8))}
 	case 5: // ... and of 10 bits
 		return KeySet{"big:steer-short-10", genSteerShort(10, 50+r.Intn(8))}
+	case 6: // more than 2^18 keys (only two option sets are built for these)
+		seen := make(map[string]bool, 300000)
+		k := make([]string, 0, 290000)
+		for len(k) < 280000 {
+			x := string(r.Bytes(r.Range(5, 7)))
+			if !seen[x] {
+				seen[x] = true
+				k = append(k, x)
+			}
+		}
+		sort.Strings(k)
+		return KeySet{"big:uniform-280k", k}
 	}
-	switch j % 6 {
+	switch j % 7 {
 	case 0: // > 65535 nodes, 257-bit nodes two levels deep
 		var k []string
 		n := r.Range(66000, 80000)
@@ -140,7 +153,7 @@ func genBig(r *RNG, j int) KeySet {
 	case 1: // thousands of 257-bit nodes
 		return KeySet{"big:dense-alpha-d4", genDenseAlpha(r, r.Range(11, 16), 4, r.Intn(50))}
 	case 2: // short-node tables of 8..10 bits
-		switch (j / 6) % 3 {
+		switch (j / 7) % 3 {
 		case 0:
 			return KeySet{"big:repeats-120x48000", genRepeats(r, 48000, 120, 3)}
 		case 1:
@@ -779,8 +792,123 @@ func (e *lookupEnv) oracleC18() *trie.Stat {
 			e.ctx.Max("levels_max", int64(len(s.Levels)))
 		}
 	}
+	// ... and against the tree String() draws (an independent walk of the same
+	// structure, checked by C19): the depth of every node follows from the
+	// indentation, and with it the true number of inner and leaf nodes on every
+	// level and the number of levels. A rendering that cannot be read with
+	// certainty (format changed, ids not level-ordered, child counts that do not
+	// add up) is skipped, not judged.
+	if nk := len(m.RetKeys); nk > 0 && nk <= 1200 && len(s.Levels) <= 80 && !e.survivor && !e.lc.Exh && (e.ctx.curCase+int(s.NodeCnt))%3 == 0 {
+		var txt string
+		if pv, _ := try(func() { txt = e.st.String() }); pv == nil {
+			// (a rendering with another number of nodes than Stat reports is C19's
+			// business or already reported above; it is no witness about levels)
+			if rows, ok := levelsFromRendering(txt); ok && rows[len(rows)-1][0] == s.NodeCnt {
+				bad := ""
+				if len(rows) != len(s.Levels) {
+					bad = "number of levels"
+				} else {
+					for i := range rows {
+						if rows[i] != [3]int32{s.Levels[i].Total, s.Levels[i].Inner, s.Levels[i].Leaf} {
+							bad = fmt.Sprintf("row %d", i)
+							break
+						}
+					}
+				}
+				if bad != "" {
+					e.viol("stat-levels-differ-from-rendered-tree", "", map[string]interface{}{"what": bad, "stat": fmt.Sprintf("%+v", *s), "levels_of_the_rendered_tree(total,inner,leaf)": fmt.Sprint(rows)})
+				}
+				e.ctx.Count("level_tables_compared_with_rendered_tree", 1)
+			} else {
+				e.ctx.Count("renderings_not_readable_for_levels", 1)
+			}
+		}
+	}
 	e.ctx.Count("calls:Stat", 1)
 	return s
+}
+
+// levelsFromRendering derives the cumulative (total, inner, leaf) rows, level 0
+// included, from String()'s tree. ok is false whenever the text cannot be read
+// with certainty.
+func levelsFromRendering(txt string) (rows [][3]int32, ok bool) {
+	lines := strings.Split(strings.TrimRight(txt, "\n"), "\n")
+	if len(lines) == 0 || lines[0] == "" {
+		return nil, false
+	}
+	type node struct {
+		id, depth, children, declared int
+		leaf                          bool
+	}
+	nodes := make([]node, 0, len(lines))
+	var stack []int // '#' columns of the ancestors
+	var stackIdx []int
+	for li, ln := range lines {
+		mm := lineRe.FindStringSubmatch(ln)
+		if mm == nil {
+			return nil, false
+		}
+		lead := len(ln) - len(strings.TrimLeft(ln, " "))
+		hashCol := strings.IndexByte(ln, '#')
+		if li == 0 {
+			if lead != 0 || mm[1] != "" {
+				return nil, false
+			}
+		} else {
+			for len(stack) > 0 && stack[len(stack)-1]+4 > lead {
+				stack = stack[:len(stack)-1]
+				stackIdx = stackIdx[:len(stackIdx)-1]
+			}
+			if len(stack) == 0 || stack[len(stack)-1]+4 != lead || mm[1] == "" {
+				return nil, false
+			}
+			nodes[stackIdx[len(stackIdx)-1]].children++
+		}
+		var id, declared int
+		fmt.Sscanf(mm[2], "%d", &id)
+		if mm[4] != "" {
+			fmt.Sscanf(mm[4], "*%d", &declared)
+		}
+		nodes = append(nodes, node{id: id, depth: len(stack) + 1, declared: declared, leaf: mm[5] != ""})
+		stack = append(stack, hashCol)
+		stackIdx = append(stackIdx, len(nodes)-1)
+	}
+	maxDepth := 0
+	byID := make([]*node, len(nodes))
+	for i := range nodes {
+		nd := &nodes[i]
+		if nd.id < 0 || nd.id >= len(nodes) || byID[nd.id] != nil {
+			return nil, false
+		}
+		byID[nd.id] = nd
+		// "*N" is printed for N >= 2 children only
+		if (nd.declared > 0 && nd.children != nd.declared) || (nd.declared == 0 && nd.children > 1) || nd.leaf == (nd.children > 0) {
+			return nil, false
+		}
+		if nd.depth > maxDepth {
+			maxDepth = nd.depth
+		}
+	}
+	for i := 1; i < len(byID); i++ {
+		if byID[i].depth < byID[i-1].depth {
+			return nil, false // ids are documented to run level by level
+		}
+	}
+	rows = make([][3]int32, maxDepth+1)
+	for _, nd := range nodes {
+		rows[nd.depth][0]++
+		if nd.leaf {
+			rows[nd.depth][2]++
+		} else {
+			rows[nd.depth][1]++
+		}
+	}
+	for d := 1; d <= maxDepth; d++ {
+		for j := 0; j < 3; j++ {
+			rows[d][j] += rows[d-1][j]
+		}
+	}
+	return rows, true
 }
 
 // survivorCheck re-reads an instance that was built and checked earlier, after
@@ -877,6 +1005,9 @@ func runLookupCase(ctx *Ctx, prop string, lc *LCase, caseIdx int) {
 		}
 		if lc.Golden != nil && o != lc.Golden.Opt && prop != "C13" {
 			continue
+		}
+		if len(lc.Keys) > 200000 && oi != 8 && oi != 9 {
+			continue // hundreds of thousands of keys: the default and the complete option set
 		}
 		m := models[o.D]
 		opt := o.Opt()
